@@ -8,6 +8,7 @@
 package main
 
 import (
+	"bytes"
 	"encoding/json"
 	"flag"
 	"fmt"
@@ -16,9 +17,10 @@ import (
 	"strconv"
 	"time"
 
-	_ "com.tuntun.rangers/node/src/zzverif/harness"
+	"com.tuntun.rangers/node/src/zzverif/harness"
 	"com.tuntun.rangers/node/src/zzverif/runner"
 	"com.tuntun.rangers/node/src/zzverif/simrt"
+	"com.tuntun.rangers/node/src/zzverif/simsched"
 )
 
 func main() {
@@ -87,6 +89,37 @@ func main() {
 	case "selftest":
 		h := need(*prop)
 		os.Exit(runner.SelfTest(h, *tier, seed, *n))
+	case "racerun":
+		// executes N concurrent C17 plans in this process; meant for the -race + simrace build, whose
+		// reports go to stderr between the RACEPLAN markers printed here
+		h := need("C17")
+		if *planF != "" {
+			// replay of one recorded plan under the race build
+			pb, err := ioutil.ReadFile(*planF)
+			if err != nil {
+				fmt.Fprintln(os.Stderr, err)
+				os.Exit(2)
+			}
+			var rf struct {
+				Plan json.RawMessage `json:"plan"`
+			}
+			if json.Unmarshal(pb, &rf) == nil && len(rf.Plan) > 0 {
+				pb = rf.Plan
+			}
+			fmt.Fprintf(os.Stderr, "RACEPLAN 0 %s\n", string(compact(pb)))
+			runner.ExecOne(h, pb)
+			fmt.Fprintf(os.Stderr, "RACEPLAN-END 1 racemode=%v\n", simsched.RaceMode)
+			return
+		}
+		for i := 0; i < *n; i++ {
+			plan := harness.C17RacePlan(seed, i)
+			fmt.Fprintf(os.Stderr, "RACEPLAN %d %s\n", i, string(plan))
+			res := runner.ExecOne(h, plan)
+			if res.Violation != nil {
+				fmt.Fprintf(os.Stderr, "RACEPLAN-VIOLATION %d %s\n", i, res.Violation.Class())
+			}
+		}
+		fmt.Fprintf(os.Stderr, "RACEPLAN-END %d racemode=%v\n", *n, simsched.RaceMode)
 	case "list":
 		for _, id := range runner.IDs() {
 			fmt.Println(id)
@@ -95,6 +128,14 @@ func main() {
 		fmt.Fprintln(os.Stderr, "unknown command", cmd)
 		os.Exit(2)
 	}
+}
+
+func compact(b []byte) []byte {
+	var buf bytes.Buffer
+	if json.Compact(&buf, b) != nil {
+		return b
+	}
+	return buf.Bytes()
 }
 
 func need(id string) runner.Harness {
